@@ -452,6 +452,16 @@ func (b *Byz) CheckBlame() {
 			}
 			continue
 		}
+		// one specific wrong-blame site gets its own signature: the identifiable-abort rounds of cmp
+		// presign (round 7 = abort1, round 8 = abort2) failing to verify an HONEST sender's decryption proof
+		if pe.Err != nil && strings.Contains(pe.Err.Error(), "failed to validate Delta MtA Nth proof") && len(pe.Culprits) == 1 && isHonest[pe.Culprits[0]] {
+			rn := "round?"
+			if f := strings.Fields(pe.Err.Error()); len(f) >= 2 && f[0] == "round" {
+				rn = "round" + strings.TrimSuffix(f[1], ":")
+			}
+			c.Violate("identifiable-abort-rejects-honest-senders-proof/"+b.Sc.Kind.String()+"/"+rn, "honest signer %q ended the identifiable-abort round with %q naming HONEST signer %q (deviating signer: %q; %s)", o.id, trimS(pe.Err.Error(), 120), pe.Culprits[0], b.Cheater, b.Applied)
+			continue
+		}
 		for _, cu := range pe.Culprits {
 			if isHonest[cu] {
 				c.Violate("honest-party-blamed/"+b.where(), "honest party %q ended with error %q naming honest party %q as culprit\n  alteration: %s by %q in %s", o.id, trimS(pe.Err.Error(), 200), cu, b.Applied, b.Cheater, b.AppliedAt)
